@@ -329,6 +329,8 @@ class GenInfo:
         self.underivable = []
         self.pub_fields = []
         self.invariant_audit = []
+        self.needs_table_hints = False
+        self.needs_layout_hints = []
         self.lost = []             # (contract key, props) whose function no longer exists
         self.lost_ghosts = []
 
@@ -439,6 +441,8 @@ def render_file(path, module, moddir, ctx):
                 info.used_contracts.add(key)
             continue
         opaque = key in ctx.get('opaque', ())
+        behavioural = None
+        is_real_layout = f.has_body and f.owner.startswith('KeyboardLayout for ') and f.name == 'map_keycode' and 'AnyLayout' not in f.owner
         if not opaque and f.has_body:
             # a body the derivation rules cannot translate is treated like one the verifier cannot read
             try:
@@ -449,8 +453,36 @@ def render_file(path, module, moddir, ctx):
             except ExtractError as e:
                 opaque = True
                 info.underivable.append('%s: %s' % (key, e))
+                if not is_real_layout:
+                    ctx['opaque'].add(key)
+        if is_real_layout and (opaque or key in ctx.get('behavioural', ())) and key not in ctx.get('opaque', ()) and len(names) == 3:
+            # no textual denotation: try a behavioural one, synthesised from the real function's complete table (untrusted
+            # hint; Verus must prove the exec body equal to it)
+            lname = f.owner[len('KeyboardLayout for '):]
+            table = (ctx.get('layout_hints') or {}).get(lname)
+            if table is None:
+                info.needs_layout_hints.append(lname)
+            else:
+                from . import synth
+                try:
+                    behavioural = synth.spec_body(table, ctx['keycodes_for_synth'], names)
+                except Exception as e:
+                    info.underivable.append('%s: behavioural synthesis failed: %r' % (key, e))
+            if behavioural is None:
+                opaque = True
                 ctx['opaque'].add(key)
-        if opaque and f.has_body:
+            else:
+                opaque = False
+        if behavioural is not None:
+            spec_sig = src[f.sig_start:f.sig_end]
+            k0 = spec_sig.index('fn map_keycode')
+            spec_sig = spec_sig[:k0] + 'open spec fn spec_map' + spec_sig[k0 + len('fn map_keycode'):]
+            pre_items = '/*@DERIVED:%s@*/\n    %s%s\n/*@ENDDERIVED@*/\n    ' % (key, spec_sig, behavioural[0])
+            oid = key + '/derived'
+            clauses.append(('ensures', oid, '%s == self.spec_map(%s)' % (ret, ', '.join(names))))
+            info.obligations[oid] = {'kind': 'derived', 'props': [], 'fn': key, 'text': 'exec body == behavioural denotation (decision trees synthesised from the real function\'s complete table)'}
+            info.derived.append({'fn': key, 'kind': 'layout', 'how': 'behavioural: %d-leaf decision trees from the 124 x 1024 table of the real function' % behavioural[1]})
+        elif opaque and f.has_body:
             # the verifier could not read this function (construct outside its dialect): leave it unverified (external_body)
             # with an uninterpreted denotation, so that the rest of the crate can still be decided; every property that
             # depends on it is reported undecided by the caller
@@ -480,11 +512,30 @@ def render_file(path, module, moddir, ctx):
             info.derived.append({'fn': key, 'kind': 'layout', **stats})
         elif f.has_body and f.owner in ('ScancodeSet1', 'ScancodeSet2') and re.match(r'^map_\w*scancode$', f.name) and len(names) == 1:
             rettype = src[f.ret_span[0]:f.ret_span[1]]
-            pre_items = '/*@DERIVED:%s@*/\n    pub open spec fn spec_%s(%s) -> %s %s\n/*@ENDDERIVED@*/\n    ' % (key, f.name, ', '.join(ptexts), rettype, body)
+            spec_body = body
+            how = 'table'
+            btoks = [t for t in body_tokens(src, f) if t.kind not in ('ws', 'lcomment', 'bcomment')]
+            if any(t.kind == 'id' and t.text in ('return', 'mut', 'loop', 'while', 'for', 'if') for t in btoks) or any(t.text == '?' for t in btoks):
+                # not a plain `match code { .. }` any more: use a *behavioural* denotation instead of a textual one - a lookup
+                # table generated from the real code's own answers (replayer dump through the public API; an untrusted hint).
+                # Verus then proves the exec body equal to it for all 256 codes, whatever the body's shape.
+                hints = ctx.get('table_hints')
+                setn = 'set1' if f.owner == 'ScancodeSet1' else 'set2'
+                ctxn = {'map_scancode': 'plain', 'map_extended_scancode': 'e0', 'map_extended2_scancode': 'e1'}.get(f.name)
+                if hints and ctxn:
+                    arms = []
+                    for code, v in enumerate(hints['%s/%s' % (setn, ctxn)]):
+                        if '/' in v and not v.startswith('Err') and (setn == 'set2' or code < 0x80):
+                            arms.append('            0x%02Xu8 => Ok(KeyCode::%s),' % (code, v.split('/')[0]))
+                    spec_body = '{\n        match %s {\n%s\n            _ => Err(Error::UnknownKeyCode),\n        }\n    }' % (names[0], '\n'.join(arms))
+                    how = 'table (behavioural: lookup table hinted by the real code, proved equal to the exec body by Verus)'
+                else:
+                    info.needs_table_hints = True
+            pre_items = '/*@DERIVED:%s@*/\n    pub open spec fn spec_%s(%s) -> %s %s\n/*@ENDDERIVED@*/\n    ' % (key, f.name, ', '.join(ptexts), rettype, spec_body)
             oid = key + '/derived'
             clauses.append(('ensures', oid, '%s == Self::spec_%s(%s)' % (ret, f.name, names[0])))
             info.obligations[oid] = {'kind': 'derived', 'props': [], 'fn': key, 'text': 'exec body == derived spec copy'}
-            info.derived.append({'fn': key, 'kind': 'table'})
+            info.derived.append({'fn': key, 'kind': 'table', 'how': how})
         elif f.has_body and f.owner == 'Modifiers' and f.name.startswith('is_') and not names:
             copy = derive_pred_copy(src, f)
             pre_items = '/*@DERIVED:%s@*/\n    pub open spec fn spec_%s(&self) -> bool %s\n/*@ENDDERIVED@*/\n    ' % (key, f.name, copy)
@@ -586,11 +637,17 @@ MARK = re.compile(r'/\*@(OB|FN|ENDFN|GHOST|ENDGHOST|DERIVED|ENDDERIVED|LEMMA|END
 CELL = re.compile(r'//\s*CELL\s+(.+?)\s*$')
 
 
-def generate(repo, contracts_dir, lemma_texts=(), out_path=None, opaque=(), probe=False, external=()):
+def generate(repo, contracts_dir, lemma_texts=(), out_path=None, opaque=(), probe=False, external=(), table_hints=None, layout_hints=None, behavioural=()):
     fncontracts, ghosts = vspec.load_dir(contracts_dir)
     info = GenInfo()
-    ctx = {'info': info, 'fncontracts': fncontracts, 'ghosts': ghosts, 'repo': repo, 'opaque': set(opaque), 'probe': probe, 'helpers': set(), 'external': set(external)}
+    ctx = {'info': info, 'fncontracts': fncontracts, 'ghosts': ghosts, 'repo': repo, 'opaque': set(opaque), 'probe': probe, 'helpers': set(), 'external': set(external), 'table_hints': table_hints, 'layout_hints': layout_hints, 'behavioural': set(behavioural), 'keycodes_for_synth': []}
     srcdir = os.path.join(repo, 'src')
+    try:
+        libsrc = open(os.path.join(srcdir, 'lib.rs'), encoding='utf-8').read()
+        m = re.search(r'pub enum KeyCode\s*\{(.*?)\n\}', libsrc, re.S)
+        ctx['keycodes_for_synth'] = re.findall(r'^\s{4}([A-Z]\w*)\s*(?:=\s*[^,]+)?,', m.group(1), re.M) if m else []
+    except Exception:
+        ctx['keycodes_for_synth'] = []
     body = render_file(os.path.join(srcdir, 'lib.rs'), '', srcdir, ctx)
     # lost anchors: contracts / ghost sections whose item no longer exists. They are recorded, not fatal: the caller
     # reports every property that depended on them as undecided (exit 2) and runs its bounded stand-ins.
